@@ -1,4 +1,5 @@
 """Shared helpers for property modules."""
+import re
 from .core import graph, Call, peel, leaves, show, N, U, D
 
 CLONE = "core::clone::Clone::clone"
@@ -1004,6 +1005,25 @@ def outcome_reach(g, a, tag, kinds=(N,)):
     return g.reach([start], kinds=kinds, env0={a.poll_local: ("Ready", tag)})
 
 
+def state_adts(facts, crate, adt_def):
+    """adt_def and the structs of the same crate it stores (transitively) in its fields: a state type that groups part
+    of its bookkeeping in a private struct (`self.buckets.current`) is still one state"""
+    c = crate if hasattr(crate, "adts") else facts.crates[crate]
+    out, todo = set(), [adt_def]
+    while todo:
+        a = todo.pop()
+        if a in out or a not in c.adts:
+            continue
+        out.add(a)
+        for v in c.adts[a].get("variants", []):
+            for fl in v.get("fields", []):
+                ts = c.types[fl["ty"]]["s"]
+                for d in c.adts:
+                    if d not in out and d.startswith(c.name) and re.search(r"(^|[^\w:])" + re.escape(d) + r"($|[^\w])", ts):
+                        todo.append(d)
+    return out or {adt_def}
+
+
 def check_stale_reads(facts, tr, rep, rule, body, adt_def):
     """a named local computed from a field of `self` must not be used after that field has been overwritten on the way
     (`let elapsed = now - self.start; if elapsed >= period { self.start = now; } .. period - elapsed`): the value then
@@ -1013,11 +1033,12 @@ def check_stale_reads(facts, tr, rep, rule, body, adt_def):
     g = graph(body)
     n = 0
     writes = {}
+    adts = state_adts(facts, body.crate, adt_def)
     for i, blk in enumerate(body.blocks):
         for j, s_ in enumerate(blk["stmts"]):
             if s_["k"] == "assign" and s_["lhs"]["p"]:
                 last = s_["lhs"]["p"][-1]
-                if isinstance(last, dict) and last.get("adt") == adt_def and last.get("n"):
+                if isinstance(last, dict) and last.get("adt") in adts and last.get("n"):
                     writes.setdefault(last["n"], []).append((i, j))
     if not writes:
         return 0
@@ -1050,7 +1071,7 @@ def check_stale_reads(facts, tr, rep, rule, body, adt_def):
                 if proj or kind not in ("assign", "call"):
                     continue
                 node = tr.expand(tr._defnode(body, g, d, 0))
-                fields = {x[2] for x in tr.walk(node, limit=80) if x[0] == "field" and x[3] == adt_def and isinstance(x[2], str)}
+                fields = {x[2] for x in tr.walk(node, limit=80) if x[0] == "field" and x[3] in adts and isinstance(x[2], str)}
                 for f in sorted(fields & set(writes)):
                     key = (l, f, db, di)
                     for (wb, wj) in writes[f]:
